@@ -43,6 +43,7 @@ MIN_REACH = {
     "cases_reaped_through_a_handle_older_than_the_sow": {"quick": 8, "thorough": 80},
     "crops_whose_batch_files_are_newer_than_the_results": {"quick": 10, "thorough": 100},
     "crops_whose_path_contains_pattern_characters": {"quick": 8, "thorough": 80},
+    "partial_reaps_of_a_harvester_crop_without_sync": {"quick": 8, "thorough": 100},
 }
 TIME_BUDGET = {"quick": 400, "thorough": 3400}
 CASE_TIMEOUT = {"quick": 300, "thorough": 900}
@@ -324,8 +325,13 @@ def run_case(ctx, case):
                         return r_
                     c.farmer.add_ds = add_then_finish
                     ctx.count("partial_reaps_racing_with_the_last_grower")
+                pkw = {}
+                if form == "harvester_ds" and not racing and (case["idx"] + len(S)) % 4 == 1:
+                    # a look at the finished part without merging the nan-padded data into the harvester's dataset
+                    pkw["sync"] = False
+                    ctx.count("partial_reaps_of_a_harvester_crop_without_sync")
                 try:
-                    res = do_reap(c, allow_incomplete=True)
+                    res = do_reap(c, allow_incomplete=True, **pkw)
                 finally:
                     if racing:
                         del c.farmer.add_ds
